@@ -46,9 +46,10 @@ def program(comps, indirect):
             # specificity inside a dict-valued parameter
             out.append(f"{dec}flow f{i}\n{pr}  match E({NESTED[mi][0]})\n  start Act{act}Action()\n  match Done()\n")
             continue
-        if indirect == "prio-twice":
-            # the flow declares a priority more than once: the last declaration counts
-            pr = f"  priority 0.3\n  priority {prio if prio is not None else 1.0}\n"
+        if indirect in ("prio-twice", "prio-twice-2"):
+            # one of the flows declares a priority more than once: the last declaration counts
+            twice = (i % 2 == 0) if indirect == "prio-twice" else (i % 2 == 1)
+            pr = (f"  priority 0.3\n  priority {prio if prio is not None else 1.0}\n" if twice else pr)
             out.append(f"{dec}flow f{i}\n{pr}  match E({args})\n  start Act{act}Action()\n  match Done()\n")
             continue
         if indirect == "or-group":
@@ -271,6 +272,7 @@ def tasks(tier):
     # the same table with every flow declaring its priority twice, and with the specificity inside a dict-valued parameter
     for pair in itertools.product(redp, repeat=2):
         out.append((pair, "prio-twice", 2))
+        out.append((pair, "prio-twice-2", 2))
     nspace = [c for c in space if c[2] == "L1"]
     for pair in itertools.product(nspace, repeat=2):
         out.append((pair, "nested", 2))
